@@ -1,2 +1,114 @@
-import NSG.Model.Coord
-/-! # C05 (theorems under construction) -/
+import NSG.Lemmas.CoordTrace
+/-! # C05 — rewards follow the configured rule and the end bonus is paid exactly once -/
+namespace NSG.Coord
+open NSG NSG.Defender
+
+/-- the end bonus an agent is entitled to, by its final status -/
+def bonusOf (S : Settings) (a : Agent) : Int := if a.status = .success then S.rSuccess else S.rFail
+
+/-- reward equations of one agent record:
+ * not (yet) paid: 0 before the first action of the episode, the step reward afterwards;
+ * paid: the agent has ended, is an attacker or a defender, and holds step reward + bonus - once;
+ * an ended agent has played at least one action. -/
+structure RewardOK (S : Settings) (a : Agent) : Prop where
+  paid : a.paid = true → a.ended = true ∧ a.role ≠ .benign ∧ a.reward = S.rStep + bonusOf S a
+  unpaid : a.paid = false → a.reward = if a.steps = 0 then 0 else S.rStep
+  ended : a.ended = true → a.steps ≠ 0
+
+theorem rewardOK_new (S : Settings) (n : String) (r : Role) (v : View) : RewardOK S (newAgent n r v) :=
+  ⟨by simp [newAgent], by simp [newAgent], by simp [newAgent]⟩
+
+theorem rewardOK_payOne (S : Settings) (sa : Bool) (a : Agent) (h : RewardOK S a) : RewardOK S (payOne S sa a) := by
+  unfold payOne
+  split
+  · exact h
+  · rename_i hc
+    simp only [Bool.or_eq_true, Bool.not_eq_true', not_or, Bool.not_eq_true, Bool.not_eq_false] at hc
+    obtain ⟨hp, he⟩ := hc
+    have hrew : a.reward = S.rStep := by rw [h.unpaid hp]; simp [h.ended he]
+    cases hr : a.role with
+    | attacker => exact ⟨fun _ => ⟨he, by simp [hr], by simp [bonusOf, hrew]⟩, by simp, fun _ => h.ended he⟩
+    | defender =>
+      simp only
+      split
+      · exact ⟨fun _ => ⟨he, by simp [hr], by simp [bonusOf, hrew]⟩, by simp, fun _ => h.ended he⟩
+      · exact ⟨fun _ => ⟨he, by simp [hr], by simp [bonusOf, hrew]⟩, by simp, fun _ => h.ended he⟩
+    | benign => exact h
+
+theorem rewardOK_bstep (S : Settings) (a b : Agent) (hs : BStep S a b) (h : RewardOK S a) : RewardOK S b := by
+  induction hs with
+  | refl a => exact h
+  | pay a sa => exact rewardOK_payOne S sa a h
+  | record a act => exact ⟨h.paid, h.unpaid, h.ended⟩
+  | reset a v _ => exact ⟨by simp [resetOne], by simp [resetOne], by simp [resetOne]⟩
+  | restart a => exact ⟨h.paid, h.unpaid, h.ended⟩
+  | trans _ _ ih1 ih2 => exact ih2 (ih1 h)
+
+theorem rewardOK_own (S : Settings) (a b : Agent) (hs : OwnStep S a b) (h : RewardOK S a) : RewardOK S b := by
+  cases hs with
+  | req => exact ⟨h.paid, h.unpaid, h.ended⟩
+  | play act v roll e he =>
+    have hp : a.paid = false := by
+      cases hpd : a.paid with
+      | false => rfl
+      | true => have := (h.paid hpd).1; simp [he] at this
+    exact ⟨by simp [playedAgent, hp], by simp [playedAgent], by simp [playedAgent]⟩
+
+/-- one delivery preserves the reward equations of every agent in the game -/
+theorem rewardOK_deliver (S : Settings) (s : St) (e : Ev)
+    (h : ∀ c a, s.agents c = some a → RewardOK S a) :
+    ∀ c a, (deliver S s e).1.agents c = some a → RewardOK S a := by
+  intro c a' ha'
+  rcases deliver_trace S s e c a' ha' with ⟨a, ha, hb⟩ | ⟨_, a, a1, ha, ho, hb⟩ | ⟨_, _, n, r, v, hb⟩
+  · exact rewardOK_bstep S a a' hb (h c a ha)
+  · exact rewardOK_bstep S a1 a' hb (rewardOK_own S a a1 ho (h c a ha))
+  · exact rewardOK_bstep S _ a' hb (rewardOK_new S n r v)
+
+/-- **For every history** of connects, messages (of any kind, in any order, with any collaborator
+answers) and departures: every agent's reward obeys the rule and carries its bonus at most once. -/
+theorem C05_rewards (S : Settings) (es : List Ev) :
+    ∀ c a, (run S init es).1.agents c = some a → RewardOK S a := by
+  suffices H : ∀ (s : St), (∀ c a, s.agents c = some a → RewardOK S a) →
+      ∀ c a, (run S s es).1.agents c = some a → RewardOK S a by
+    exact H init (by intro c a h; simp [init] at h)
+  induction es with
+  | nil => intro s h; simpa [run] using h
+  | cons e es ih =>
+    intro s h
+    simp only [run]
+    exact ih _ (rewardOK_deliver S s e h)
+
+/-- the reward task pays every ended attacker and defender (so the final observation released right
+after it carries step reward + bonus) ... -/
+theorem C05_paid_after_task (S : Settings) (sa : Bool) (a : Agent) (he : a.ended = true) (hr : a.role ≠ .benign) :
+    (payOne S sa a).paid = true := by
+  unfold payOne
+  by_cases hp : a.paid = true
+  · simp [hp]
+  · simp only [hp, he, Bool.not_true, Bool.or_false, Bool.false_eq_true, if_false]
+    cases h : a.role <;> simp_all <;> split <;> rfl
+
+/-- ... and paying is idempotent: whatever fires the reward task again later (a departure, a late
+finisher), a paid agent's record is not touched. -/
+theorem C05_once (S : Settings) (sa : Bool) (a : Agent) (hp : a.paid = true) : payOne S sa a = a := by
+  simp [payOne, hp]
+
+/-- defenders: success reward iff no attacker in the game reached its goal; other roles: no bonus -/
+theorem C05_defender (S : Settings) (sa : Bool) (a : Agent) (hr : a.role = .defender) (he : a.ended = true) (hp : a.paid = false) :
+    (payOne S sa a).reward = a.reward + (if sa then S.rFail else S.rSuccess) ∧
+    (payOne S sa a).status = (if sa then .fail else .success) := by
+  cases sa <;> simp [payOne, hr, he, hp]
+
+theorem C05_attacker (S : Settings) (sa : Bool) (a : Agent) (hr : a.role = .attacker) (he : a.ended = true) (hp : a.paid = false) :
+    (payOne S sa a).reward = a.reward + (if a.status = .success then S.rSuccess else S.rFail) ∧
+    (payOne S sa a).status = a.status := by
+  simp [payOne, hr, he, hp]
+
+theorem C05_benign (S : Settings) (sa : Bool) (a : Agent) (hr : a.role = .benign) : payOne S sa a = a := by
+  unfold payOne; split <;> simp [hr]
+
+/-- a reset returns the reward to zero and forgets the payment -/
+theorem C05_reset (v : View) (a : Agent) : (resetOne v a).reward = 0 ∧ (resetOne v a).paid = false ∧ (resetOne v a).obs.reward = 0 := by
+  simp [resetOne]
+
+end NSG.Coord
